@@ -247,7 +247,13 @@ func (c *Config) SetString(name string, idx int, value string, opts ...Option) e
 //
 // SetChild supports the options: PathSep, MetaData
 func (c *Config) SetChild(name string, idx int, value *Config, opts ...Option) error {
-	return c.setField(name, idx, cfgSub{c: value}, opts)
+	v := cfgSub{c: value}
+	if !value.ctx.empty() {
+		// value is already part of another configuration and can not have two
+		// parents: add a copy, so Path and Parent of the new child are correct
+		return c.setField(name, idx, v.cpy(context{}), opts)
+	}
+	return c.setField(name, idx, v, opts)
 }
 
 // getField supports the options: PathSep, Env, Resolve, ResolveEnv
